@@ -954,6 +954,10 @@ def Bip85(inp, tab, ev):
     for h in inp.get("history", []):
         hi = int.from_bytes(bytes(h["ix"]["mag"]), "big")
         call(request(be, h["app"], h["p"], hi, h.get("spell", "kw-all")))
+    # ... and a long run of DISTINCT other requests on the same object (more than any small cache holds)
+    for j in range(inp.get("bulk", 0)):
+        a_, p_, i_ = [("hex", 16 + j % 49, j), ("wif", 0, j + 3), ("pwd", 20 + j % 67, j + 2)][j % 3]
+        call(request(be, a_, p_, i_))
     f = request(be, spell=inp.get("spell", "kw-all"))
     with PrfTap(prf):
         ok, v = call(f)
